@@ -8,8 +8,8 @@ ROOT = os.path.dirname(os.path.abspath(__file__))
 CHECKS = {
     "C01": (
         "exhaustive enumeration of all day numbers, all 2^32 raw i32 and a (y,m,d) triple grid against a day-counting reference walker",
-        "Every in-range day number (3,652,059), every raw i32 and every triple of the grid is executed on the real code and compared with an independent day-counting calendar walker; the value space of the property is enumerated completely, so a wrong constant, leap rule, month table, weekday offset or range gate is found with certainty.",
-        "Trusted: the reference walker (28/29/30/31 rule + leap rule + 1970-01-01 = day 0 = Thursday), rustc arithmetic. Triples outside the grid (years beyond -400..10400 other than the listed extremes) are not enumerated.",
+        "Every in-range day number (3,652,059), every raw i32 and every triple of the grid is executed on the real code (through the checked and, with valid input, the unchecked constructors) and compared with an independent day-counting calendar walker; the value space of the property is enumerated completely, so a wrong constant, leap rule, month table, weekday offset or range gate is found with certainty.",
+        "Trusted: the reference walker (28/29/30/31 rule + leap rule + 1970-01-01 = day 0 = Thursday), rustc arithmetic. Triples outside the grid (years beyond -400..10400 other than the listed extremes) are not enumerated. Hidden state is explored to depth 3 from a fresh thread over a structured alphabet, by alternation of every date with two anchors, and for the first call of a fresh process; longer histories are outside the bound.",
         "DESIGN.md §4 C01",
     ),
 
@@ -26,13 +26,13 @@ CHECKS = {
         "DESIGN.md §4 C09",
     ),
     "C10": (
-        "exhaustive enumeration: all dates x 12 units (Date), all dates x critical times x 12 units (Timestamp, OracleDate), every second of selected days, against per-unit boundary predicates",
+        "exhaustive enumeration: all dates x 12 units (Date), all dates x critical times x 12 units (Timestamp, OracleDate), every second of selected days, against per-unit boundary predicates; explicit exploration of call histories (depth <= 3 on fresh threads, alternation with anchors over all dates, first call of a fresh process)",
         "Truncation of every date (and every date at every critical time, and every second of 29 selected days) for each of the 12 units on the three types is compared with 'the latest boundary <= input', where boundaries come from one independent predicate per unit evaluated by the day-counting walker; idempotence, never-forward and monotonicity are asserted as well; failure is required exactly when no boundary exists at or after 0001-01-01.",
         "Trusted: the per-unit boundary predicates in refmodel/calendar.rs and the walker.",
         "DESIGN.md §4 C10",
     ),
     "C11": (
-        "exhaustive enumeration: same spaces as C10 with the Round methods, against boundary predicates plus the documented midpoints",
+        "exhaustive enumeration: same spaces as C10 with the Round methods, against boundary predicates plus the documented midpoints; the same call-history exploration as C10",
         "Rounding of every date / every date at every critical time (both sides of 12:00, :30, :30s) / every second of selected days, 12 units, three types, compared with T/N from the independent boundary predicates and the documented midpoint per unit; boundary inputs must be unchanged; monotonicity is asserted along the sweep (except ISO year); failure required exactly when the chosen boundary is outside the range. Shortened weeks only require membership in {T, N}, monotonicity and Date/Timestamp agreement.",
         "Trusted: boundary predicates, midpoint table typed from the trait documentation. One open known finding (F2, round_century for years divisible by 100) is suppressed by signature.",
         "DESIGN.md §4 C11",
@@ -65,7 +65,7 @@ CHECKS = {
     "C14": (
         "exhaustive cross product of receiver pools x a float operand alphabet (special values, integers, dyadic and decimal grids, tiny/huge, signed zero, infinities, NaN) x mul/div, judged by exact rational arithmetic with a 2^-52 band",
         "Each (receiver, operand, operation) triple runs on the real code; the reference decodes the double into sign/mantissa/exponent and computes the real product or quotient as an exact rational; a returned value must be the truncation toward zero of a number within relative 2^-52 of it, exactly x*k when that is an exactly representable integer below 2^53, and errors must be classified as the property states (NaN -> invalid number, infinite result -> numeric overflow, zero divisor -> divide by zero first, finite out-of-range -> interval range); (-x)*k = -(x*k) = x*(-k) is compared directly.",
-        "Trusted: refmodel/exact.rs (big-integer rational arithmetic, unit-tested). Only the operand alphabet is covered, not all doubles.",
+        "Trusted: refmodel/exact.rs (big-integer rational arithmetic, unit-tested). Only the operand alphabet is covered, not all doubles; exactness beyond the 2^-52 band is demanded for multiplication only, as the property states. Two-step call histories over a small structured alphabet run on fresh threads.",
         "DESIGN.md §4 C14",
     ),
     "C16": (
@@ -96,7 +96,7 @@ CHECKS = {
     "C19": (
         "bounded language enumeration: every string of length <= 5 (thorough 6) over a 40-symbol alphabet, every token spelling at positions 34..38, rotations of the token list up to 40 tokens, blank runs of every length 1..=600, against a reference longest-match tokenizer through a probe rendering",
         "Each string is compiled by the real Formatter::try_new; it must be accepted iff the reference tokenizer splits it into at most 36 documented tokens, rejection must be Error::InvalidFormat, and on acceptance the text produced for a probe timestamp with pairwise distinct field renderings must equal the reference rendering of the reference token sequence — which identifies the token sequence, the name style chosen from the first two letters and the blank-run length.",
-        "Trusted: refmodel tokenizer/renderer. The lexer looks ahead at most 5 bytes and carries no state between tokens, so length <= 6 covers every first-token decision with every following byte; longer pictures are covered by the token-sequence and blank-run families only.",
+        "Trusted: refmodel tokenizer/renderer. The lexer looks ahead at most 5 bytes and carries no state between tokens, so length <= 6 covers every first-token decision with every following byte; longer pictures are covered by the bounded token language (all sequences of <= 6 / 7 tokens over an 18-token alphabet), the well-known pictures in five letter-case variants through each type's own entry point, and the blank-run families (every length to 600, powers of two to 2^17 / 2^22).",
         "DESIGN.md §4 C19",
     ),
 
@@ -115,13 +115,13 @@ CHECKS = {
     "C15": (
         "exhaustive enumeration: all dates (Date, OracleDate x 3 times), all seconds, timestamps every 86,399.999983 s across the range, boundary pools of all types through serde_json and bincode; raw-integer limits through bincode; complete single-edit neighbourhood of canonical JSON strings",
         "Every enumerated value is serialized and deserialized in both forms by the real code: identity, the human-readable text equals the fixed layout rendered by the reference, the binary form equals the raw count; every raw integer at the range limits +/-1 and the integer extremes (and sub-second payloads for the Oracle-style date) must decode to the same in-range value or fail; every single substitution / deletion / insertion of 20 symbols at every position of canonical strings, plus JSON numbers / null / booleans / empty string, must fail or yield an in-range value.",
-        "Trusted: serde_json, bincode (default fixed-width little-endian configuration), reference renderer. Multi-edit malformed strings are not enumerated.",
+        "Trusted: serde_json, bincode (default fixed-width little-endian configuration), serde's value deserializers, reference renderer. Decoding also goes through from_value, from_reader, escaped strings, containers (Vec, Option, map value, map key, tuple) and typed scalars of every integer width. Multi-edit malformed strings are not enumerated.",
         "DESIGN.md §4 C15",
     ),
     "C18": (
         "exhaustive enumeration over the environment: every possible current local date (all 3,652,059 days, three times of day) injected through the verif-hooks clock override, crossed with partial pictures, short-year pictures, the omitted 12-hour field, complete pictures, the now() constructors and the Time conversions; clocks outside years 1..9999",
         "The wall clock is the crate's only environment input; with the verif-hooks feature every one of its six reads goes through a thread-local override, so the check decides the clock. For every clock day the partial pictures must default year/month from the clock, day to 1, time to zero (12 for an omitted 12-hour field), complete 1-3 digit years with the leading digits of the clock year, and fail - never normalise - when the composed triple is not a real date; complete pictures must give the same value under every clock; now()/TryFrom<Time> must report the injected instant (Oracle date floored) and fail cleanly for clocks outside the range. Ownership of the clock is shown by a canary against the real clock, the read counter and an identical-replay slice.",
-        "Trusted: chrono NaiveDateTime construction (hook input), the add-only hook patch. Needs the hook (cargo feature verif-hooks).",
+        "Trusted: chrono NaiveDateTime construction (hook input), the add-only hook patch. Needs the hook (cargo feature verif-hooks). The un-injected clock is compared with chrono::Local under TZ=JST-9 and again after a change of TZ inside the process (the check sets TZ itself and sleeps 1.3 s for chrono's zone refresh).",
         "DESIGN.md §4 C18",
     ),
 }
